@@ -221,6 +221,23 @@ def post_cost(ev, args, kwargs, ret, exc, pre_, depth):
     T = list(s.types)
     pairs = []
     judged = 1
+    # GammaIn / closure.value are internals of this implementation of cost(): the cost argument IS r * gamma (documented), so the
+    # input of the closures is recomputed from it when the attribute is gone; without closure.value nothing is judged here
+    x = args[1] if len(args) > 1 else kwargs.get('x')
+    try:
+        gam_all = np.asarray(x, dtype=float).reshape((len(r), len(T), len(T))) / r.reshape(-1, 1, 1)
+    except Exception:
+        gam_all = None
+
+    class _G(object):
+        def __getitem__(self, key):
+            gi = getattr(p, 'GammaIn', None)
+            if gi is not None:
+                return gi[key]
+            return gam_all[:, T.index(key[0]), T.index(key[1])]
+    gamma_in = _G()
+    if getattr(p, 'GammaIn', None) is None and gam_all is None:
+        return {'prism': ob.oid(p), 'obj': ob.oid(p), 'pairs': [], 'judged': 0}
     for i, a in enumerate(T):
         for b in T[i:]:
             clo = s.closure[a, b]
@@ -237,7 +254,7 @@ def post_cost(ev, args, kwargs, ret, exc, pre_, depth):
             bad = 0
             ncore = 0
             if val is not None and exc is None:
-                gin = np.asarray(p.GammaIn[a, b], dtype=float)
+                gin = np.asarray(gamma_in[a, b], dtype=float)
                 idx = np.where((r <= sigma) & ~((np.abs(r - sigma) < 1e-6) & (r != sigma)))[0]
                 ncore = int(len(idx))
                 v = np.asarray(val, dtype=float)
@@ -255,7 +272,7 @@ def post_cost(ev, args, kwargs, ret, exc, pre_, depth):
                 terms = prism_eval.load_terms()
                 kind = prism_eval.CANON.get(type(clo).__name__)
                 if terms is not None and kind is not None and val is not None and exc is None and getattr(clo, 'potential', None) is not None:
-                    gin = np.asarray(p.GammaIn[a, b], dtype=float)
+                    gin = np.asarray(gamma_in[a, b], dtype=float)
                     u = np.asarray(clo.potential, dtype=float)
                     v = np.asarray(val, dtype=float)
                     out = (r > sigma) if flag else np.ones(len(r), dtype=bool)
